@@ -269,12 +269,15 @@ def run(prog: Program, chk: Check):
         w = c.args[1] if len(c.args) >= 2 else None
         leaves = dataflow.source_closure(runf.node, w) if w is not None else set()
         src_txt = ", ".join(sorted(leaves))
-        okp = leaves == {"self.modules"} and not any(isinstance(x, (ast.ListComp, ast.GeneratorExp)) and x.generators[0].ifs for x in ast.walk(w)) \
-            and (isinstance(w, ast.Call) or isinstance(w, ast.Attribute))
+        def real_filter(comp):
+            # excluding the listening socket (never a recipient) is not a restriction of the poll
+            return any(not ("listen_socket" in norm(c_) and len([n_ for n_ in ast.walk(c_) if isinstance(n_, ast.Attribute)]) <= 2) for g_ in comp.generators for c_ in g_.ifs)
+
+        okp = leaves == {"self.modules"} and not any(isinstance(x, (ast.ListComp, ast.GeneratorExp, ast.SetComp)) and real_filter(x) for x in ast.walk(w))
         # filtered locals: a comprehension with a condition feeding the write set
         for nm in [x.id for x in ast.walk(w) if isinstance(x, ast.Name)]:
             for kind, rhs in dataflow.definitions(runf.node, nm):
-                if isinstance(rhs, (ast.ListComp, ast.GeneratorExp, ast.SetComp)) and any(g_.ifs for g_ in rhs.generators):
+                if isinstance(rhs, (ast.ListComp, ast.GeneratorExp, ast.SetComp)) and real_filter(rhs):
                     okp = False
                     src_txt += " (filtered)"
     R7.decide(okp, fkey(runf, "write-select-covers-all"), where(runf, sel[0] if sel else runf.node), "write-select polls self.modules (every connection)",
